@@ -8,11 +8,14 @@
   statements (StatsWF, FallWF, stride, nSamples, selOK, seedOK, varOK): SnowProofs/Lemmas/FramesProps.lean.
 -/
 import SnowProofs.Lemmas.FramesProps
+import SnowModel.FrameLabels
+import SnowProofs.Props.C16
 
 namespace Snow.C17
 open Snow.Frames Snow.FramesLemmas Snow.FramesProps
 
 set_option linter.unusedSectionVars false
+set_option linter.unusedTactic false
 variable {V : Type} [Inhabited V]
 
 /-- **stats_table_exact**: the statistics table has one row per (key, vial); row
@@ -72,6 +75,66 @@ theorem fall_table_exact (labels : List String) (statsList : List (Stats V))
         rows[i * (labels.length * 3) + (j * labels.length + v)]? =
           some ⟨labels.getD v "", v, kv.1, x, i⟩ := by
   first | (apply Snow.FramesProps.fall_table_exact <;> assumption) | (apply @Snow.FramesProps.fall_table_exact V <;> assumption)
+
+/-! ### the group column: link to the vial classes (model `Groups.lean`, property C16) -/
+
+section classes
+open Snow.Topology Snow.Groups Snow.FrameLabels
+
+theorem statsLabels_getD (arr : Arr) (nx ny nz v : Nat) (hv : v < nTot nx ny nz) :
+    (statsLabels arr nx ny nz).getD v "" = render (statsLabel arr nz (ext arr nx ny nz v)) := by
+  simp [statsLabels, List.getD_eq_getElem?_getD, hv]
+
+/-- **stats_table_class**: built with the labels the code computes
+(`statsLabel` of the vial's exposure count), every row of the statistics table
+carries, for its vial, the NAME OF THE CLASS THE VIAL BELONGS TO: the label is one
+of corner / edge / side / core, the vial passes the group test of that name, and it
+is in the class named `g` exactly when `g` and the label are the same class (up to
+the synonyms). Shapes with at least two vials per populated direction (C16). -/
+theorem stats_table_class (arr : Arr) (nx ny nz : Nat) (hnx : 2 ≤ nx) (hny : 2 ≤ ny)
+    (stats : Stats V) (h : StatsWF (nTot nx ny nz) stats) (j v : Nat) (kv : String × List V) (x : V)
+    (hv : v < nTot nx ny nz) (hj : stats[j]? = some kv) (hx : kv.2[v]? = some x) :
+    ∃ s ∈ ["corner", "edge", "side", "core"],
+      (statsTable (statsLabels arr nx ny nz) stats)[j * nTot nx ny nz + v]? = some ⟨s, v, kv.1, x⟩ ∧
+      groupTest arr nz s (ext arr nx ny nz v) = true ∧
+      ∀ g ∈ ["corner", "edge", "side", "core", "center"],
+        (groupTest arr nz g (ext arr nx ny nz v) = true ↔ Groups.canon arr nz g = Groups.canon arr nz s) := by
+  obtain ⟨_, s, hs, hlab, htest, hall⟩ := Snow.C16.labels_agree (nx := nx) (ny := ny) (nz := nz) (i := v) arr hnx hny hv
+  refine ⟨s, hs, ?_, htest, hall⟩
+  have := (FramesProps.stats_table_exact (nTot nx ny nz) (statsLabels arr nx ny nz) stats h).2 j v kv x hv hj hx
+  rw [this, statsLabels_getD arr nx ny nz v hv, hlab]
+  rfl
+
+/-- **traj_table_class**: the trajectory table, built with the labels the code computes
+for the stored vials, carries for every row the class name of ITS vial — the same
+label the statistics table gives that vial. -/
+theorem traj_table_class (arr : Arr) (nx ny nz : Nat) (hnx : 2 ≤ nx) (hny : 2 ≤ ny)
+    (X : List (List V)) (t : List V) (n : Nat) (vials : List Nat)
+    (hn : 2 ≤ n) (hm : 0 < vials.length) (ht : t.length = (X.headD []).length)
+    (rows : List (TrajRow V))
+    (hrows : trajTable false X t n vials (trajLabels arr nx ny nz vials) = .ok (some rows))
+    (k r : Nat) (hk : k < nSamples (X.headD []).length n) (hr : r < 2 * vials.length)
+    (tv xv : V) (row : List V) (vi : Nat)
+    (htv : t[k * stride (X.headD []).length n]? = some tv)
+    (hrow : X[r]? = some row) (hxv : row[k * stride (X.headD []).length n]? = some xv)
+    (hvi : vials[r % vials.length]? = some vi) (hlt : vi < nTot nx ny nz) :
+    ∃ s ∈ ["corner", "edge", "side", "core"],
+      rows[k * (2 * vials.length) + r]? =
+        some { group := s, vial := vi, state := if r < vials.length then "temperature" else "sigma",
+               time := tv, value := xv } ∧
+      (statsLabels arr nx ny nz).getD vi "" = s ∧
+      groupTest arr nz s (ext arr nx ny nz vi) = true := by
+  obtain ⟨heq, s, hs, hlab, htest, _⟩ := Snow.C16.labels_agree (nx := nx) (ny := ny) (nz := nz) (i := vi) arr hnx hny hlt
+  refine ⟨s, hs, ?_, ?_, htest⟩
+  · have := FramesProps.traj_table_exact X t n vials (trajLabels arr nx ny nz vials) hn hm ht rows hrows k r hk hr
+      tv xv row vi htv hrow hxv hvi
+    rw [this]
+    have hl : (trajLabels arr nx ny nz vials).getD (r % vials.length) "" = s := by
+      simp [trajLabels, List.getD_eq_getElem?_getD, hvi, ← heq, hlab, render]
+    rw [hl]
+  · rw [statsLabels_getD arr nx ny nz vi hlt, hlab]; rfl
+
+end classes
 
 /-- whatever table was cached before (any history of runs and exports), after
 `run()` the table is the one of the stats of THAT run … -/
